@@ -46,3 +46,26 @@ Print Assumptions C05_hadamard_sound.
 Print Assumptions C05_gram_sound.
 Print Assumptions C05_scale_sound.
 Print Assumptions C05_add_sub_total.
+
+(* ---- ALL EXPRESSION TREES over the operations (Theory/QSMExpr.v): a syntax of expressions evaluated with the model's operations.
+   By induction on the tree: whenever evaluation returns a matrix it is a valid operand (well formed) and its dense matrix is the
+   same expression on the dense matrices of the leaves; and when every leaf carries a diagonal (and no gram, a method of the
+   square kind only, occurs) evaluation does return a matrix, which again carries a diagonal. ---- *)
+From TinyGP Require Import Theory.QSMExpr.
+Theorem C05_expression_trees_sound (F : fieldType) sq lt n (e : mexpr F) (A : qsm F) :
+  wf_leaves n e -> meval sq lt e = Some A -> qwfn n A /\ den n A = mden n e.
+Proof. exact: mexpr_sound. Qed.
+Theorem C05_expression_trees_total (F : fieldType) sq lt (e : mexpr F) :
+  diag_leaves e -> exists2 C, meval sq lt e = Some C & has_diag C.
+Proof. exact: mexpr_total. Qed.
+Print Assumptions C05_expression_trees_sound.
+Print Assumptions C05_expression_trees_total.
+
+(* non-vacuity: a concrete tree (a product of a sum of a diagonal and a symmetric matrix with a scaled lower-triangular one) meets both premises *)
+Example C05_tree_example :
+  let D := Diag 2 [:: 1; 2]%R : qsm rat_fieldType in
+  let Sy := Symm [:: 1; 1]%R (MkTri 2 1 [:: [:: 1]; [:: 2]] [:: [:: 1]; [:: 1]] [:: [:: [:: 1]]; [:: [:: 1]]])%R : qsm rat_fieldType in
+  let Lo := Lower [:: 3; 1]%R (MkTri 2 1 [:: [:: 2]; [:: 1]] [:: [:: 1]; [:: 3]] [:: [:: [:: 1]]; [:: [:: 2]]])%R : qsm rat_fieldType in
+  let e := MMul (MAdd (MLeaf D) (MLeaf Sy)) (MScale 2%:R (MNeg (MLeaf Lo))) in
+  wf_leaves 2%N e && diag_leaves e.
+Proof. by []. Qed.
